@@ -3,6 +3,7 @@ NEXT GNext
 CONSTANT Shapes = {1, 2, 100}
 CONSTANT MaxLen = 5
 CONSTANT Ext = 1
+CONSTANT FullTails = TRUE
 CONSTANT NRand = 20
 CONSTANT RandDepth = 3
 CHECK_DEADLOCK FALSE
